@@ -70,6 +70,60 @@ pub fn part_sweep(tier: Tier) -> Part {
     part
 }
 
+/// The same sweep over a C program (gcc line tables: no prologue_end marks, `main` from crt).
+pub fn part_c_binary(_tier: Tier) -> Part {
+    let mut part = Part::new("dwarf-agreement-c-binary");
+    part.rule = "the address / line / function sweep of the first part over a C program built by the system C compiler (position independent and fixed address): its line table has no prologue_end marks, so a function breakpoint has to be found without them and must still lie inside the function it names".into();
+    let bins = match crate::c05c::build() {
+        Ok(b) => b,
+        Err(e) => {
+            part.violate("C04:machinery:c-build", e, json!({}));
+            return part;
+        }
+    };
+    for (name, exe) in bins.iter().filter(|b| b.0.starts_with("eh-")) {
+        let job = json!({"exe": exe, "args": [], "main_entry_sp": 0, "bt": false, "commands": [
+            {"op":"break_fn","name":"main"},
+            {"op":"start"},
+            {"op":"remove_fn","name":"main"},
+            {"op":"c04_sweep","file":"cframes.c","fns":["leaf","middle","outer","main","nosuchfn"]},
+            {"op":"continue"}
+        ]});
+        let replay = json!({"engine":"c04-job","job":job});
+        match run_worker("e2e", &job, Duration::from_secs(120)) {
+            WorkerOutcome::Ok(v) => {
+                let obs = v["obs"].as_array().cloned().unwrap_or_default();
+                let Some(sw) = obs.get(3).map(|o| o["res"].clone()) else {
+                    part.violate("C04:machinery:no-sweep", format!("[{name}] {v}"), replay);
+                    continue;
+                };
+                if let Some(e) = sw["error"].as_str() {
+                    part.violate("C04:machinery:sweep-error", format!("[{name}] {e}"), replay.clone());
+                }
+                part.evaluations += sw["evaluations"].as_u64().unwrap_or(0);
+                part.distinct_nontrivial += sw["nontrivial"].as_u64().unwrap_or(0);
+                part.states += 1;
+                for f in sw["findings"].as_array().cloned().unwrap_or_default() {
+                    part.violate(f["sig"].as_str().unwrap_or("C04:?"), format!("[c {name}] {}", f["detail"].as_str().unwrap_or("")), replay.clone());
+                }
+                part.sample(json!({"binary": name, "user_functions": sw["user_functions"], "lines": sw["max_line"]}));
+                if obs.get(4).map(|o| o["res"]["kind"] != "exit").unwrap_or(true) {
+                    part.violate("C04:c-binary:program-did-not-finish", format!("[{name}] {:?}", obs.get(4).map(|o| o["res"].clone())), replay.clone());
+                }
+            }
+            WorkerOutcome::Crashed { status, stderr, .. } => {
+                let first = stderr.lines().find(|l| l.contains("panicked")).unwrap_or(stderr.lines().last().unwrap_or("")).to_string();
+                part.violate("C04:debugger-crashed", format!("[c {name}] {status}: {first}"), replay);
+            }
+            WorkerOutcome::Timeout { .. } => part.violate("C04:debugger-hung", format!("[c {name}]"), replay),
+        }
+    }
+    part.transitions = part.evaluations;
+    part.traces_validated = part.states;
+    part.bounds = json!({"binaries": 2});
+    part
+}
+
 pub fn replay(v: &Value) -> i32 {
     let p = match load_prog(v["exe"].as_str().unwrap_or("")) {
         Ok(p) => p,
